@@ -74,6 +74,11 @@ func (api *HTTP) handlePostMessage(w http.ResponseWriter, r *http.Request, sessi
 	if idx := strings.IndexByte(data, '\n'); idx > -1 {
 		data = data[:idx]
 	}
+	// Likewise, CR and NUL must never end up in a line which is relayed to
+	// other clients (RFC1459 section 2.3.1).
+	if idx := strings.IndexAny(data, "\r\x00"); idx > -1 {
+		data = data[:idx]
+	}
 	msg := &robust.Message{
 		Session:         session,
 		Type:            robust.IRCFromClient,
